@@ -860,6 +860,9 @@ fn frontend_start(
                     }
 
                     if *mod_atom == b"mod" {
+                        if x.len() < 2 {
+                            return Err(CompileErr(l.clone(), "mod requires arguments".to_string()));
+                        }
                         let args = Rc::new(x[1].clone());
                         let body_vec: Vec<Rc<SExp>> =
                             x.iter().skip(2).map(|s| Rc::new(s.clone())).collect();
